@@ -110,3 +110,11 @@ chk("C20", MC,
     "slots untouched, no free slot => failure without touching anything, exit frees and deactivates exactly that slot. Plus "
     "real histories of up to 3 (4) nested mappings ended in every order (solver-chosen read/write kinds).",
     PY_NOTE, "symbolic execution of the real coroutine from an arbitrary pre-state (one inductive step) + bounded histories", "B:8/C20")
+
+chk("C27", MC,
+    "The real Valve.reset/update run symbolically over histories of 3 (4) updates after a reset: per step the requested target, "
+    "both switch readings and the clock advance at every clock reading are solver variables (clock stub: arbitrary "
+    "non-decreasing instants), initial coil symbolic; moving times {0,1,5} and both safe-state settings enumerated. After "
+    "every step coil/target/error are compared with the statement (position check for safeState=closed, error reaction for "
+    "both settings). All paths explored.",
+    PY_NOTE, "symbolic execution of the real device code over bounded histories with a symbolic clock (z3)", "B:8/C27")
